@@ -335,6 +335,7 @@ fn bfs<T: Dom>(rep: &Report, lo: P, g: u32, nvals: u8, sparse_max: usize) {
 
     while let Some(i) = frontier.pop_front() {
         let (r0, m0) = (states[i].0.clone(), states[i].1.clone());
+        crate::engine::crumb::set_case(&format!("C05 {} lo={lo:?} g={g} expanding state {:?}", T::NAME, m0));
         let mut ops: Vec<Op> = vec![];
         for p in &positions {
             if m0.empty || (p.0 >= m0.start.0 && p.1 >= m0.start.1) {
@@ -379,6 +380,7 @@ fn bfs<T: Dom>(rep: &Report, lo: P, g: u32, nvals: u8, sparse_max: usize) {
             }
         }
     }
+    crate::engine::crumb::clear();
     rep.add_states(states.len() as u64, transitions);
     rep.eval(transitions);
     rep.trace(transitions);
